@@ -157,6 +157,18 @@ func (w *bw) count() int {
 	defer w.mu.Unlock()
 	return len(w.got)
 }
+// drainUntilClosed reads until the channel is closed; false if that does not happen within d.
+func (w *bw) drainUntilClosed(d time.Duration) bool {
+	done := make(chan struct{})
+	go func() { w.pump(); close(done) }()
+	select {
+	case <-done:
+		return true
+	case <-time.After(d):
+		return false
+	}
+}
+
 func (w *bw) pump() { // eager consumer
 	for b := range w.ch {
 		w.mu.Lock()
@@ -622,7 +634,9 @@ func (r *bkRig) finish(w *bw, quiet bool) {
 	w.cancel()
 	r.sc.labs(lW("LCancel", w.id), lW("LCtxDelete", w.id))
 	if w.lazy {
-		w.pump()
+		if !w.drainUntilClosed(20 * time.Second) {
+			r.failf("w%d: result channel not closed within 20s after cancel", w.id)
+		}
 	} else if !waitUntil(20*time.Second, func() bool { _, c := w.snapshot(); return c }) {
 		r.failf("w%d: result channel not closed within 5s after cancel", w.id)
 	}
@@ -994,7 +1008,9 @@ func bkOverflow(w *coll, scratch string, parkDeleter bool) {
 	r.hubN += total + 2
 	mon.hubbed = 0
 	// the client now reads everything
-	wt.pump()
+	if !wt.drainUntilClosed(20 * time.Second) {
+		r.failf("a batch was dropped for the never-reading client, but its stream was not closed within 20s")
+	}
 	got, closed := wt.snapshot()
 	r.sc.steps = append(r.sc.steps, lib.App("RRep", lib.N(uint64(total+3)),
 		lib.List([]string{lW("LConsume", wt.id), lW("LProc", wt.id), lW("LProc", wt.id)})))
